@@ -100,21 +100,26 @@ def run(ctx) -> None:
                   "is not the identity", key_detail="same-category-return")
         # R-RATIO
         nz = _UnitNorm(df, node.idx, call_hook=_canon_hook)
-        poly = nz.norm(st.value)
-        lookups = [(a, e) for m in poly.terms for a, e in m if a.startswith("_conversion_factors[")]
-        other = [(a, e) for m in poly.terms for a, e in m if not a.startswith("_conversion_factors[")]
-        if len(poly.terms) == 1 and lookups and not other:
-            keys = sorted((a, e) for a, e in lookups)
-            shape_ok = (len(keys) == 2 and {e for _, e in keys} == {1, -1}
-                        and {a for a, _ in keys} == {"_conversion_factors[canon(units)]",
-                                                     "_conversion_factors[canon(old_units)]"})
-            ctx.check(shape_ok, "R-RATIO", f"{gcf.qualname}:return {norm_text(st.value)}", gcf.loc(st),
-                      f"normal form {poly.key()}",
-                      f"the factor normalises to {poly.key()}, not to a ratio table[canon(units)]/table[canon(old_units)]",
-                      key_detail="ratio")
-        else:
-            ctx.info("R-RATIO", f"{gcf.qualname}:return", gcf.loc(st),
-                     f"result is not a pure product of factor-table lookups ({poly.key()[:80]}); only R-INFLUENCE applies")
+        polys = [nz.norm(st.value)]
+        if isinstance(st.value, ast.Name):
+            rds = [d for d in df.reaching(node.idx, st.value.id) if d.kind == "assign" and d.value is not None]
+            if len(rds) > 1:  # a conditionally updated result: every value it can hold is judged
+                polys = [_UnitNorm(df, d.node, call_hook=_canon_hook).norm(d.value) for d in rds]
+        for poly in polys:
+          lookups = [(a, e) for m in poly.terms for a, e in m if a.startswith("_conversion_factors[")]
+          other = [(a, e) for m in poly.terms for a, e in m if not a.startswith("_conversion_factors[")]
+          if len(poly.terms) == 1 and lookups and not other:
+              keys = sorted((a, e) for a, e in lookups)
+              shape_ok = (len(keys) == 2 and {e for _, e in keys} == {1, -1}
+                          and {a for a, _ in keys} == {"_conversion_factors[canon(units)]",
+                                                       "_conversion_factors[canon(old_units)]"})
+              ctx.check(shape_ok, "R-RATIO", f"{gcf.qualname}:return {norm_text(st.value)}", gcf.loc(st),
+                        f"normal form {poly.key()}",
+                        f"the factor normalises to {poly.key()}, not to a ratio table[canon(units)]/table[canon(old_units)]",
+                        key_detail="ratio")
+          else:
+              ctx.info("R-RATIO", f"{gcf.qualname}:return", gcf.loc(st),
+                       f"result is not a pure product of factor-table lookups ({poly.key()[:80]}); only R-INFLUENCE applies")
     ctx.require(n_same >= 1, "get_conversion_factor has no same-category return")
 
     # ---------------- R-KEYS
